@@ -197,6 +197,8 @@ func checkC05(p *Prog, r *Report) {
 	r.rule("C05.B5", "no explicit panic is reachable from the entry points except the frozen, justified ones; unchecked type assertions agree with the static type of every value stored into the asserted container", 5)
 	r.rule("C05.B6", "every / and % with a non-constant divisor in the input-path functions has a positive divisor: a dominating fact, or a field whose every store is positive", 4)
 	r.rule("C05.B9", "the reader's copy loop stays inside the caller's buffer: PeekSize (Recv's admission test) and Recv's copy loop both stop at the first segment with frg == 0, so they agree on the message even for forged fragment numbers (= C01.S7)", 2)
+	r.rule("C05.B12", "no datagram can orphan a live session (unbounded growth): a session leaves the listener's table only by being closed (= C15.G8)", 2)
+	r.rule("C05.B11", "every operand of a 64-bit sync/atomic function is 64-bit aligned on 32-bit platforms as well: a struct field at an offset that is a multiple of 8 (gc/386 layout) from the start of its allocation — otherwise the first datagram that reaches the operation panics the process on 386/arm/mips", 10)
 	r.rule("C05.B10", "no datagram is longer than a pooled buffer: every receive buffer of the four read loops is allocated with at most mtuLimit bytes, and every slice of a fresh pool buffer in the input path is cut to the length of received data (or to a bound <= mtuLimit)", 5)
 	r.rule("C05.B8", "the receive-side buffering limits hold for arbitrary (also window-ignoring) input: delivery queue and reorder heap admit only below rcv_wnd / inside the window (C04.W1, C04.W2)", 4)
 	r.rule("C05.B7", "arrays/slices indexed by x % N (or by an index only ever stored as (y+1) % N) are allocated with length N at every store", 4)
@@ -221,6 +223,8 @@ func checkC05(p *Prog, r *Report) {
 		}
 	}
 	checkReceiveBufferSizes(p, r, inputPathFuncs(p))
+	checkAtomicAlignment(p, r, "C05.B11")
+	checkSessionsLeaveByClose(p, r, "C05.B12")
 	delegate(p, r, "C04", checkC04, "C04.W1", "C05.B8")
 	delegate(p, r, "C04", checkC04, "C04.W2", "C05.B8")
 
@@ -721,7 +725,7 @@ func checkBoundedGrowth(p *Prog, r *Report, fns []*FuncInfo) {
 		if !ok {
 			return true
 		}
-		conds := dcf.DominatingConds(pt)
+		conds := dcf.localDominatingConds(pt) // exactness: the test inside discardShards itself
 		if len(conds) == 1 {
 			ct := p.ExpandHelpers(p.resolveSingleDefs(df, conds[0]))
 			if ct.Op == "<" && termHasField(ct, p.Field("fecDecoder", "newestShardId")) {
@@ -1600,6 +1604,115 @@ func checkReceiveBufferSizes(p *Prog, r *Report, fns []*FuncInfo) {
 			}
 			r.check(ok, "C05.B10", fi.Name, p.Pos(se), "pool buffer cut "+exprString(se), why, "a fresh pool buffer is cut to "+exprString(se.High)+", which is neither bounded by mtuLimit nor the length of received data")
 			return true
+		})
+	}
+}
+
+// checkAtomicAlignment: for every call of a 64-bit function of sync/atomic whose operand is &x.f1…fn, the
+// offset of the field from the start of the enclosing allocation (the nearest pointer dereference or variable
+// in the selector chain), computed with the gc/386 sizes, is a multiple of 8. The first word of an allocated
+// struct or of a variable is 64-bit aligned (sync/atomic, "Bugs"); everything else is the programmer's duty.
+// Independent of the configuration analysed: the layout is computed for 386 in every run.
+func checkAtomicAlignment(p *Prog, r *Report, rule string) {
+	sizes := types.SizesFor("gc", "386")
+	is64 := func(name string) bool {
+		return strings.HasSuffix(name, "Uint64") || strings.HasSuffix(name, "Int64")
+	}
+	seen := map[string]int{}
+	for _, fi := range p.funcs {
+		if fi.Body == nil {
+			continue
+		}
+		p.AllCallsIn(fi, func(call *ast.CallExpr) {
+			f := p.Callee(call)
+			if f == nil || f.Pkg() == nil || f.Pkg().Path() != "sync/atomic" || !is64(f.Name()) || len(call.Args) == 0 {
+				return
+			}
+			if sig, ok := f.Type().(*types.Signature); ok && sig.Recv() != nil {
+				return // methods of atomic.Uint64 / atomic.Int64: aligned by the type itself
+			}
+			ue, ok := ast.Unparen(call.Args[0]).(*ast.UnaryExpr)
+			if !ok || ue.Op != token.AND {
+				return // a pointer computed elsewhere: not followed
+			}
+			// walk the selector chain from the operand outwards to the allocation base
+			off := int64(0)
+			known := true
+			desc := exprString(ue.X)
+			var e ast.Expr = ast.Unparen(ue.X)
+		chain:
+			for {
+				switch x := e.(type) {
+				case *ast.SelectorExpr:
+					sel, okS := p.Info.Selections[x]
+					if !okS || sel.Kind() != types.FieldVal {
+						break chain // package-qualified variable: an allocation of its own
+					}
+					t := sel.Recv()
+					idx := sel.Index()
+					for k, i := range idx {
+						if pt, isP := t.Underlying().(*types.Pointer); isP {
+							// implicit dereference: what lies behind the pointer is a new allocation
+							if k > 0 {
+								off = 0
+							}
+							t = pt.Elem()
+							if k == 0 {
+								// x.X is a pointer: the chain ends here after this selection
+							}
+						}
+						st, isS := t.Underlying().(*types.Struct)
+						if !isS {
+							known = false
+							break chain
+						}
+						var fields []*types.Var
+						for j := 0; j < st.NumFields(); j++ {
+							fields = append(fields, st.Field(j))
+						}
+						offs := sizes.Offsetsof(fields)
+						_ = k
+						off += offs[i]
+						t = st.Field(i).Type()
+					}
+					// does the chain continue inside the same allocation? only when x.X is itself a field selection of a struct value
+					if _, isPtr := p.Info.TypeOf(x.X).Underlying().(*types.Pointer); isPtr {
+						break chain
+					}
+					e = ast.Unparen(x.X)
+				case *ast.Ident:
+					break chain // a variable: allocation base
+				case *ast.IndexExpr:
+					// element of an array/slice: aligned when the element size is a multiple of 8 (and, for an array field, the chain continues)
+					et := p.Info.TypeOf(x)
+					if et == nil || sizes.Sizeof(et)%8 != 0 {
+						known = false
+					}
+					if _, isArr := p.Info.TypeOf(x.X).Underlying().(*types.Array); isArr {
+						e = ast.Unparen(x.X)
+						continue
+					}
+					break chain
+				case *ast.StarExpr:
+					break chain
+				default:
+					known = false
+					break chain
+				}
+			}
+			construct := "atomic." + f.Name() + "(&" + desc + ")"
+			seen[construct]++
+			if seen[construct] > 1 {
+				return // one obligation per operand
+			}
+			switch {
+			case !known:
+				r.ok(rule, fi.Name, p.Pos(call), construct, "operand not a plain field chain (alignment follows from the element type or is not followed)")
+			case off%8 == 0:
+				r.ok(rule, fi.Name, p.Pos(call), construct, fmt.Sprintf("offset %d from the start of its allocation under the gc/386 layout", off))
+			default:
+				r.bad(rule, fi.Name, p.Pos(call), construct, fmt.Sprintf("the operand lies at offset %d (not a multiple of 8) from the start of its allocation under the gc/386 layout: on 32-bit platforms the operation panics with 'unaligned 64-bit atomic operation' — one datagram that reaches it takes the process down", off), "")
+			}
 		})
 	}
 }
